@@ -3,6 +3,7 @@
 use super::graph::*;
 use crate::sched::{AbortReason, Sched, SchedSpec, Shared, SimShutdown, Stats};
 use serde::{Deserialize, Serialize};
+use stateright::verif_hooks::Hooks;
 use stateright::{Checker, Chooser, HasDiscoveries, Model, Path, UniformChooser};
 use std::collections::{BTreeMap, BTreeSet};
 use std::panic::{catch_unwind, AssertUnwindSafe};
@@ -97,6 +98,10 @@ pub struct S1Scenario {
     /// reporting period of the harness reporter (virtual ms)
     #[serde(default)]
     pub report_delay_ms: u16,
+    /// virtual time that passes between configuring the builder (`.timeout(d)`) and spawning the
+    /// checker: the timeout is a budget for the check, counted from the spawn
+    #[serde(default)]
+    pub pre_spawn_delay_ns: u64,
     pub sched: SchedSpec,
 }
 
@@ -400,7 +405,7 @@ pub fn run_s1(sc: &S1Scenario) -> Obs {
     let sched = Sched::new(sc.sched.clone());
     let visits: Shared<Vec<Visit>> = Shared::new(Vec::new());
     sched.enter();
-    let timeout_deadline = sc.timeout_ns.map(|t| sched.wall_ns() + t);
+    let timeout_deadline_cell = std::cell::Cell::new(sc.timeout_ns.map(|t| sched.wall_ns() + t));
     let result = catch_unwind(AssertUnwindSafe(|| {
         let mut b = model.clone().checker().threads(sc.threads).finish_when(sc.finish.to_real());
         if let Some(t) = sc.target_states {
@@ -426,6 +431,10 @@ pub fn run_s1(sc: &S1Scenario) -> Obs {
                 v.with(|v| v.push(Visit { state, path, step, t_ns, thread }));
             });
         }
+        if sc.pre_spawn_delay_ns > 0 {
+            sched.sleep(Duration::from_nanos(sc.pre_spawn_delay_ns));
+        }
+        timeout_deadline_cell.set(sc.timeout_ns.map(|t| sched.wall_ns() + t));
         match sc.strategy {
             Strategy::Bfs => drive(sc, &sched, b.spawn_bfs()),
             Strategy::Dfs => drive(sc, &sched, b.spawn_dfs()),
@@ -474,7 +483,7 @@ pub fn run_s1(sc: &S1Scenario) -> Obs {
         trace_hash: sched.trace_hash(),
         join_returned_at_wall_ns: at.map(|a| a.0),
         join_returned_at_step: at.map(|a| a.1),
-        timeout_deadline_wall_ns: timeout_deadline,
+        timeout_deadline_wall_ns: timeout_deadline_cell.get(),
         spawn_panic,
         assert_ok_before_done: EARLY_ASSERT.with(|f| f.get()),
         model_generated: model.generated.load(std::sync::atomic::Ordering::Relaxed),
